@@ -226,6 +226,31 @@ def read_real(c, tmp):
         os.remove(fn)
 
 
+def read_regrid_real(cs, tmp):
+    """several iterations of one variable in ONE file, each with its own decomposition / component
+    count (a Carpet regrid), read by ONE call: list of canonical outputs, one per iteration"""
+    fn = os.path.join(tmp, "alp.h5")
+    import h5py
+    its = [2 * i for i in range(len(cs))]
+    with h5py.File(fn, "w") as f:
+        for it, c in zip(its, cs):
+            n = len(c["chunks"])
+            for j, (ix, iy, iz, sz, sy, sx, v0) in enumerate(c["chunks"]):
+                key = "ADMBASE::alp it=%d tl=0 rl=0" % it + (" c=%d" % c["order"][j] if n > 1 else "")
+                ds = f.create_dataset(key, data=index_block(v0, sz, sy, sx).astype(np.float64))
+                ds.attrs["cctk_nghostzones"] = np.array(c["ghost"], dtype=np.int32)
+                ds.attrs["iorigin"] = np.array([ix, iy, iz], dtype=np.int32)
+                ds.attrs["time"] = float(it)
+    try:
+        with quiet():
+            out = reading().read_ET_group_or_var(["alp"], [fn], "in file", it=list(its), rl=0)
+        return [show(a) for a in out["alpha"]]
+    except (ValueError, IndexError, KeyError):
+        return ["err"] * len(cs)
+    finally:
+        os.remove(fn)
+
+
 def direct_cases(ctx, tmp):
     rng = ctx.rng
     cases = []   # (line, real output, kind)
@@ -254,6 +279,17 @@ def direct_cases(ctx, tmp):
         c = gen_read(rng)
         cc = dict(c, chunks=read_enumeration(c))
         cases.append((raw_line(cc, "read", c["ghost"]), read_real(c, tmp), "read"))
+    regrid_counts = {}
+    for _ in range(ctx.budget(60, 500)):
+        cs = [gen_read(rng) for _ in range(rng.choice((2, 2, 3)))]
+        outs = read_regrid_real(cs, tmp)
+        ns = [len(c["chunks"]) for c in cs]
+        kind = "more" if ns[-1] > ns[0] else "fewer" if ns[-1] < ns[0] else "same"
+        regrid_counts[kind] = regrid_counts.get(kind, 0) + 1
+        for c, out in zip(cs, outs):
+            cc = dict(c, chunks=read_enumeration(c))
+            cases.append((raw_line(cc, "read", c["ghost"]), out, "regrid"))
+    ctx.cov["direct_regrid_component_count_later_vs_first"] = regrid_counts
     for _ in range(ctx.budget(60, 300)):
         g = [rng.randint(1, 3) for _ in range(3)]
         if rng.random() < 0.25:
@@ -450,9 +486,19 @@ def pipeline(ctx, root, ndirs):
         desc = etgen.random_desc(rng, "c11sim%d" % k, per_proc=per_proc, grouped=grouped,
                                  nlevels=1 + (k // 4) % 2, nmax=ctx.budget(7, 12),
                                  kmax=rng.choice(((2, 2, 2), (3, 2, 2), (3, 3, 3))))
+        if rng.random() < 0.5:
+            # a regrid inside a restart: from some iteration on the levels are cut differently
+            etgen.add_random_regrid(rng, desc, kmax=rng.choice(((2, 2, 2), (3, 2, 2), (3, 3, 3))))
+        ctx.count("pipeline_restarts_with_regrid", sum(1 for r in desc["restarts"] if "regrid" in r))
         skip_last = len(desc["restarts"]) >= 2 and rng.random() < 0.25
         sim = etgen.Sim(root, desc)
         calls = random_calls(rng, sim, ctx.budget(3, 5), skip_last)
+        for r in desc["restarts"]:
+            if "regrid" in r and r["number"] in sim.restart_numbers(skip_last):
+                # one request that spans the regrid, on every level
+                for rl in range(len(desc["levels"])):
+                    calls.append({"it": list(r["its"]), "vars": [desc["requests"][0]], "rl": rl,
+                                  "restart": r["number"], "skip_last": skip_last})
         lay = "%s/%s" % ("proc" if per_proc else "onefile", "group" if grouped else "var")
         layouts[lay] = layouts.get(lay, 0) + 1
         ctx.count("pipeline_restarts", len(desc["restarts"]))
@@ -724,6 +770,8 @@ def checkpoint_pipeline(ctx, root, ndirs):
         desc = etgen.random_desc(rng, "c11ck%d" % k, per_proc=per_proc, grouped=grouped,
                                  nlevels=1 + (k // 4) % 2, nmax=ctx.budget(6, 9),
                                  kmax=rng.choice(((2, 2, 2), (3, 2, 2))))
+        if rng.random() < 0.3:
+            etgen.add_random_regrid(rng, desc, kmax=(2, 2, 2))
         etgen.add_random_checkpoints(rng, desc)
         skip_last = len(desc["restarts"]) >= 2 and rng.random() < 0.25
         sim = etgen.Sim(root, desc)
@@ -819,6 +867,65 @@ def missing_variable_pipeline(ctx, root, ndirs):
             sim.remove()
     ctx.cov["missing_variable_pipeline"] = dict(stats, directories=ndirs)
     return found, cases
+
+
+def default_path_histories(ctx, root, ndirs):
+    """read_data as users call it (split_per_it=True, the default): several calls on ONE directory
+    without clearing the per-iteration cache in between - a component first and then its tensor,
+    fewer iterations first and then more, another variable in between - each call judged against
+    the generator's ground truth including the time column"""
+    rng = ctx.rng
+    found = 0
+    stats = {"calls": 0, "histories": 0}
+    for k in range(ndirs):
+        per_proc, grouped = bool(k & 1), bool(k & 2)
+        desc = etgen.random_desc(rng, "c11hist%d" % k, per_proc=per_proc, grouped=grouped, nlevels=1,
+                                 nrest=rng.randint(1, 2), nmax=ctx.budget(5, 7), kmax=(2, 2, 2),
+                                 nvars=rng.randint(2, 3), nits=4)
+        sim = etgen.Sim(root, desc)
+        pool = sim.all_its()
+        tens = [n for n in desc["requests"] if n in etgen.TENSORS]
+        main = rng.choice(tens) if tens else rng.choice(desc["requests"])
+        first = rng.choice(etgen.components(main))                 # a component, later its tensor
+        others = [n for n in desc["requests"] if n != main]
+        other = rng.choice(others) if others else main
+        few = sorted(rng.sample(pool, rng.randint(1, max(1, len(pool) - 1))))
+        mid = sorted(rng.sample(pool, rng.randint(1, len(pool))))
+        rl = 0
+        hist = [{"it": few, "vars": [first]}, {"it": mid, "vars": [other]},
+                {"it": list(pool), "vars": [main] if rng.random() < 0.5 else [main, other]}]
+        if rng.random() < 0.5:
+            hist.append({"it": rng.sample(pool, rng.randint(1, len(pool))), "vars": list(desc["requests"])})
+        if rng.random() < 0.3:
+            hist = hist[::2] + hist[1::2]
+        stats["histories"] += 1
+        if k == 0:
+            ctx.sample({"default_path_history": hist})
+        sim.write()
+        try:
+            param = sim.param()
+            done = []
+            for h in hist:
+                call = {"it": list(h["it"]), "vars": list(h["vars"]), "rl": rl, "restart": -1, "skip_last": False}
+                try:
+                    data = do_read(param, call, split_per_it=True)
+                    diff = check_against_truth(sim, call, data)
+                except Exception as ex:  # noqa
+                    diff = "raised %s: %s" % (type(ex).__name__, str(ex)[:200])
+                stats["calls"] += 1
+                done.append({"it": call["it"], "vars": call["vars"]})
+                if diff:
+                    fp = fingerprint(sim, call, diff)
+                    fp["site"] = "read_data/default_path_history"
+                    found += report(ctx, "read_data (default split_per_it=True), call %d of the history %s on one "
+                                    "generated directory: %s" % (len(done), done, diff),
+                                    {"kind": "input", "op": "history", "desc": sim.describe(), "history": done,
+                                     "rl": rl}, fp)
+                    break
+        finally:
+            sim.remove()
+    ctx.cov["default_path_histories"] = dict(stats, directories=ndirs)
+    return found
 
 
 # --------------------------------------------------------------------------
@@ -1028,6 +1135,7 @@ def run(ctx):
         f, sel2 = checkpoint_pipeline(ctx, tmp + "/", ctx.budget(12, 80) + (8 if ctx.broken() else 0))
         found += f
         cases += sel2
+        found += default_path_histories(ctx, tmp + "/", ctx.budget(8, 60) + (8 if ctx.broken() else 0))
         f, sel2 = missing_variable_pipeline(ctx, tmp + "/", ctx.budget(8, 60) + (8 if ctx.broken() else 0))
         found += f
         cases += sel2
@@ -1053,6 +1161,8 @@ def run(ctx):
             names = {"join": "joinChunks/chunks vs join_chunks on hierarchical decompositions",
                      "raw": "joinChunks vs join_chunks on arbitrary boxes (malformed stream)",
                      "read": "trimGhost+joinChunks+fixij vs read_ET_group_or_var on a real HDF5 file",
+                     "regrid": "the same per iteration when ONE call reads several iterations of one file whose "
+                               "component count changes between them (Carpet regrid)",
                      "trim": "pyTrim vs numpy [g:-g]", "fixij": "fixij vs reading.fixij",
                      "names": "Gen/VarMaps functions vs transform_vars_*", "sel": "readOrder vs restart chosen by read_data",
                      "ckpt": "Model/Checkpoint.readCheckpoints vs read_ET_checkpoints on real HDF5 checkpoint files "
@@ -1076,6 +1186,20 @@ def replay(ctx, obj):
             bad = out != show(A)
             print("replay join: %s" % ("still differs from the array that was cut" if bad else "now correct"))
             return 1 if bad else 0
+        if obj.get("op") == "history":
+            sim = etgen.Sim(tmp + "/", obj["desc"]).write()
+            diff = None
+            for n, h in enumerate(obj["history"]):
+                call = {"it": h["it"], "vars": h["vars"], "rl": obj.get("rl", 0), "restart": -1, "skip_last": False}
+                try:
+                    diff = check_against_truth(sim, call, do_read(sim.param(), call, split_per_it=True))
+                except Exception as ex:  # noqa
+                    diff = "raised %s: %s" % (type(ex).__name__, ex)
+                if diff:
+                    diff = "call %d: %s" % (n + 1, diff)
+                    break
+            print("replay history: %s" % (diff or "now correct"))
+            return 1 if diff else 0
         if obj.get("op") == "classx":
             real = raw_real(obj["case"])
             print("replay class X: join_chunks gives %s" % real)
